@@ -63,9 +63,10 @@ func funcKey(pkgPath string, fd *ast.FuncDecl) string {
 
 // inlinable: structural restrictions on the helper itself.
 func inlinableHelper(pkg *packages.Package, fd *ast.FuncDecl) bool {
-	if fd.Body == nil || fd.Type.TypeParams != nil {
+	if fd.Body == nil {
 		return false
 	}
+	// a generic helper is inlined with the type arguments of each call (expandSite)
 	if fd.Name.Name == "init" || fd.Name.Name == "main" {
 		return false
 	}
@@ -178,6 +179,18 @@ func Normalise(opt LoadOptions, testIdents map[string]bool, loadFn func(map[stri
 			changed = true
 			continue
 		}
+		if cedits, cmsgs := liftClosureRound(pkgs, overlay); len(cedits) > 0 {
+			log = append(log, cmsgs...)
+			prev = map[string][]byte{}
+			for k, v := range overlay {
+				prev[k] = v
+			}
+			for path, content := range cedits {
+				overlay[path] = content
+			}
+			changed = true
+			continue
+		}
 		edits, msgs, bad := inlineRound(pkgs, overlay, testIdents, &counter)
 		log = append(log, msgs...)
 		if bad {
@@ -190,6 +203,10 @@ func Normalise(opt LoadOptions, testIdents map[string]bool, loadFn func(map[stri
 			log = append(log, msgs...)
 			if len(edits) == 0 {
 				edits, msgs = unboxRound(pkgs, overlay, &counter)
+				log = append(log, msgs...)
+			}
+			if len(edits) == 0 {
+				edits, msgs = unboxParamsRound(pkgs, overlay)
 				log = append(log, msgs...)
 			}
 			if len(edits) == 0 {
@@ -268,9 +285,14 @@ func inlineRound(pkgs []*packages.Package, overlay map[string][]byte, testIdents
 	}
 	// candidate helpers: unknown to the anchor list
 	cand := map[types.Object]*declInfo{}
+	moved := movedAnchorNames(pkgs)
 	for obj, d := range decls {
 		key := funcKey(d.pkg.PkgPath, d.fd)
 		if anchorFuncs[key] {
+			continue
+		}
+		if from, isMoved := moved[strings.ToLower(d.fd.Name.Name)]; isMoved && from != d.pkg.PkgPath {
+			log = append(log, "not inlined (has the name of an anchor that is gone from its package: taken to be that anchor, moved): "+key)
 			continue
 		}
 		if !inlinableHelper(d.pkg, d.fd) {
@@ -307,7 +329,7 @@ func inlineRound(pkgs []*packages.Package, overlay map[string][]byte, testIdents
 					// a helper named in a package-level declaration stays
 					ast.Inspect(gd, func(n ast.Node) bool {
 						if id, ok := n.(*ast.Ident); ok {
-							if obj := pkg.TypesInfo.Uses[id]; obj != nil && cand[obj] != nil {
+							if obj := originOf(pkg.TypesInfo.Uses[id]); obj != nil && cand[obj] != nil {
 								blocked[obj] = "used in a package-level declaration"
 							}
 						}
@@ -372,7 +394,7 @@ func inlineRound(pkgs []*packages.Package, overlay map[string][]byte, testIdents
 		callsCandidate := false
 		ast.Inspect(d.fd.Body, func(n ast.Node) bool {
 			if id, ok := n.(*ast.Ident); ok {
-				if o := d.pkg.TypesInfo.Uses[id]; o != nil && cand[o] != nil && o != obj {
+				if o := originOf(d.pkg.TypesInfo.Uses[id]); o != nil && cand[o] != nil && o != obj {
 					callsCandidate = true
 				}
 			}
@@ -440,7 +462,7 @@ func inlineRound(pkgs []*packages.Package, overlay map[string][]byte, testIdents
 					continue
 				}
 			}
-			ex, err := expandSite(s, counter, overlay)
+			ex, err := expandSiteSafe(s, counter, overlay)
 			if err != nil {
 				log = append(log, fmt.Sprintf("not inlined (%v): %s", err, funcKey(d.pkg.PkgPath, d.fd)))
 				all = false
@@ -620,7 +642,7 @@ func collectSites(pkg *packages.Package, file *ast.File, caller *ast.FuncDecl, c
 		if !ok {
 			return true
 		}
-		obj := info.Uses[id]
+		obj := originOf(info.Uses[id])
 		if obj == nil || cand[obj] == nil {
 			return true
 		}
@@ -1239,4 +1261,53 @@ func identName(e ast.Expr) string {
 // on, not just called) and must not trigger normalisation by themselves.
 var anchorClosures = map[string]bool{
 	"servitor/pub\x00closure\x00constructComment": true,
+}
+
+// movedAnchorNames: the (lower-cased) names of the functions and methods of the
+// inventory that are no longer declared where the inventory has them. A new
+// function of such a name is taken to be the anchor itself, moved to another
+// package or turned from a method into a function there (Program.movedFunc
+// resolves it for the rules), and is not inlined away.
+func movedAnchorNames(pkgs []*packages.Package) map[string]string {
+	present := map[string]bool{}
+	for _, pkg := range pkgs {
+		if !isServitorPath(pkg.PkgPath) {
+			continue
+		}
+		for _, f := range pkg.Syntax {
+			for _, d := range f.Decls {
+				if fd, ok := d.(*ast.FuncDecl); ok {
+					present[funcKey(pkg.PkgPath, fd)] = true
+				}
+			}
+		}
+	}
+	// name -> the package the anchor is gone from (a function of that name in the
+	// SAME package is a method turned function or the reverse: reshapeRound's job)
+	out := map[string]string{}
+	for key := range anchorFuncs {
+		if !present[key] {
+			pkgPath := key[:strings.LastIndex(key, ".")]
+			if i := strings.Index(pkgPath, ".("); i >= 0 {
+				pkgPath = pkgPath[:i]
+			}
+			out[strings.ToLower(key[strings.LastIndex(key, ".")+1:])] = pkgPath
+		}
+	}
+	return out
+}
+
+// expandSiteSafe: a crash while expanding one call site leaves that helper
+// where it is (the rules then run on the program as written) instead of
+// taking the whole check down.
+func expandSiteSafe(s *inlineSite, k int, overlay map[string][]byte) (ex *expansion, err error) {
+	defer func() {
+		if e := recover(); e != nil {
+			if b, ok := e.(BrokenError); ok {
+				panic(b)
+			}
+			ex, err = nil, fmt.Errorf("internal error while expanding: %v", e)
+		}
+	}()
+	return expandSite(s, k, overlay)
 }
